@@ -50,6 +50,9 @@ type Scenario struct {
 	// thread (timed scenarios in which something keeps happening tick after tick); nil = inconclusive
 	OnHorizon func(o *obs.Obs) string
 
+	// Horizon overrides the step horizon of an execution (0 = the default of rt)
+	Horizon int
+
 	proj map[string]bool // projected outcomes of the complete terminal states (see ProjFile)
 }
 
@@ -96,6 +99,9 @@ func (s *Scenario) explorer(deadline time.Time, counters, maxima map[string]int)
 			x.ArmCost = s.Deviations
 			if s.Live {
 				x.Horizon = 400
+			}
+			if s.Horizon > 0 {
+				x.Horizon = s.Horizon
 			}
 		},
 		Check: func(x *rt.Exec) string {
